@@ -111,6 +111,17 @@ def rule_S1(ctx):
             # normal exits of the loop: guard false (bound reached) or the break under .end
             endc = [c for c in pr.conds if c[0] == f"truthy(sub({table},{cur}~).end)"]
             if len(pr.steps) > 1:
+                # the bound counter must not move between the loop guard and the end-of-chain exit: the post-loop
+                # `counter >= size -> Broken FAT` test then contradicts the guard, so a well-formed chain that
+                # fills the whole table is not rejected
+                from .termination import delta_of
+                gv = [n.id for n in ast.walk(loop.test) if isinstance(n, ast.Name)]
+                for g in gv:
+                    d = delta_of(g, [(s.kind, s.ast, s.label) for s in pr.steps if s.ast is not None], Evaluator())
+                    okg = d is not None and d == Term.const(0)
+                    ctx.ob("S1", loop, f"the walk bound `{g}` counts followed links: it is not advanced on the iteration that ends the chain", okg,
+                           "" if okg else f"`{g}` changes by {d.key() if d is not None else '?'} before the end-of-chain exit: a chain occupying every table entry hits the broken-FAT error",
+                           inst=f"bound-at-exit:{g}")
                 ok4 = bool(endc) and all(t for _, t, _ in endc) and len(idx_app) == 1 and not idx_asg
                 ctx.ob("S1", loop, "the loop is left from inside exactly when the link just read is an end marker, after appending that sector", ok4,
                        "" if ok4 else f"loop exit through lines {lines} is not the `.end` exit (or skips the append / moves the cursor)", inst=f"exit:{_pc(pr)}")
